@@ -39,6 +39,12 @@ theorem k_polyGetCoefficient_eq (gf : Gen.K04b.GenericGF) (p : List Nat) (d : Na
     cases p[p.length - 1 - d]? <;> rfl
 
 
+when_kernel Gzx.Gen.K04b.polyGetCoefficient in
+/-- the same with the degree as an integer expression (for rewriting inside callers) -/
+theorem k_polyGetCoefficient_at (gf : Gen.K04b.GenericGF) (p : List Nat) (e : Int) (d : Nat) (h : e = d) :
+    Gen.K04b.polyGetCoefficient gf (ints p) e = (getCoefficient p d).map Int.ofNat := by
+  subst h; exact k_polyGetCoefficient_eq gf p d
+
 /-! ### EvaluateAt -/
 
 /-- the `a == 1` loop: xor of all coefficients -/
